@@ -24,6 +24,9 @@ pub struct FnDef {
     /// cycle families: initial value (fix) / fallback value (fb)
     #[serde(default)]
     pub init: i64,
+    /// forward: the result also exports the handles obtained from callees (not only own ones)
+    #[serde(default)]
+    pub fwd: i64,
     pub nodes: Vec<Node>,
 }
 
